@@ -245,7 +245,7 @@ theorem step_cursor (k k' : List K) (s s' : State) (h : step k s = some (k', s')
             (execSimple_cursor _ _ _)
       | redir rs c =>
         simp only [step] at h
-        split at h <;> (simp only [Option.some.injEq, Prod.mk.injEq] at h; rw [← h.1, ← h.2])
+        split at h <;> (try split at h) <;> (simp only [Option.some.injEq, Prod.mk.injEq] at h; rw [← h.1, ← h.2])
         · rcases performIn_first rs s with ⟨h1, h2⟩ | hh
           · rw [h1, h2]
             exact cursorAdv_quiet _ _ _ _ hin rfl rfl (fun _ => rfl) (fun _ x => x)
@@ -280,6 +280,9 @@ theorem step_cursor (k k' : List K) (s s' : State) (h : step k s = some (k', s')
               simp only [Inside, hh]
               exact ⟨hshared, hin⟩
             · simp only [outerDesc, hh, Option.getD_some]; simp
+        · rw [undo_perform]
+          exact cursorAdv_quiet _ _ _ _ hin rfl rfl (fun _ => by rw [outerDesc_dropGuards]; rfl)
+            (fun _ x => Inside_dropGuards _ _ x)
         · rw [undo_perform]
           exact cursorAdv_quiet _ _ _ _ hin rfl rfl (fun _ => rfl) (fun _ x => x)
       | ifc c t e he =>
@@ -374,7 +377,7 @@ theorem runK_cursor (n : Nat) (k : List K) (s : State) (hfin : (runK n k s).2 = 
           cases a with
           | cmd c =>
             cases c with
-            | redir rs c => simp only [step] at hst; split at hst <;> simp at hst
+            | redir rs c => simp only [step] at hst; split at hst <;> (try split at hst) <;> simp at hst
             | simple ws here => simp [step] at hst
             | ifc c t e he => simp [step] at hst
             | loop u c b => simp [step] at hst
